@@ -348,7 +348,7 @@ func c12GenDyn(t *rapid.T) c12DynCase {
 	n := rapid.IntRange(5, verifkit.Size(12, 18)).Draw(t, "nsteps")
 	for i := 0; i < n; i++ {
 		kind := rapid.SampledFrom([]string{"refresh", "refresh", "refresh", "refresh", "refresh", "refresh-kept", "refresh-kept",
-			"revert", "revert-to", "set-retain", "set-retain", "set-retain"}).Draw(t, "kind")
+			"revert", "revert", "revert-to", "set-retain", "set-retain", "set-retain"}).Draw(t, "kind")
 		// shape: often a larger setting first (revisions pile up) and a small one half way
 		// (more kept than the setting allows)
 		shaped := 0
@@ -766,7 +766,7 @@ func TestVerifC12Static(t *testing.T) {
 			ID: "C12", Engine: "static",
 			Gen: c12GenStatic,
 			Run: func(cs c12StaticCase) (verifkit.Outcome, error) { return c12RunStatic(c, cs) },
-			Floors: map[string]float64{"gc-must-act": 0.20, "current-not-last": 0.20, "in-use": 0.20, "kept-only-for-boot": 0.08,
+			Floors: map[string]float64{"gc-must-act": 0.20, "current-not-last": 0.20, "in-use": 0.20, "kept-only-for-boot": 0.05,
 				"target-kept": 0.15, "snap-kernel": 0.2, "snap-core": 0.1, "snap-core18": 0.1},
 			NonTrivialFloor: 0.6,
 		})
